@@ -83,6 +83,7 @@ theorem switchTo_flush (ext : WExt) (s : WState) (m : Method) (l : Int) (p : Byt
   unfold switchTo
   have hne : (m == Method.stored) = false := by simpa using hm
   simp only [h, Inner.currentCompression, hne, Bool.false_eq_true, if_false]
+  apply WSat.of_run_eq (Model.emitFinish_none _ _ _ _ _ _)
   unfold Model.emit
   dsimp only
   apply WSat.io_none (MSat.writeAll_append _ none hl); intro _ d' ⟨h1, h2⟩
